@@ -620,6 +620,26 @@ func treeMutation(r *hx.Rng, root *Node, safe bool) string {
 		toc.Kids = append(toc.Kids, El("stray", El("data", Leaf("offset", strconv.FormatInt(int64(r.Intn(100)), 10)), Leaf("length", "3"))))
 		return "stray-data"
 	case 14: // certificate text
+		if r.Intn(3) == 0 {
+			// a classic signature only, every certificate element blank (empty / white space): no certificate at all
+			if sg := toc.Child("signature"); sg != nil {
+				var cs []*Node
+				findAll(sg, "X509Certificate", &cs)
+				if len(cs) > 0 {
+					for i, c := range cs {
+						setText(c, []string{"", " \n\t ", "\r\n"}[(i+r.Intn(3))%3])
+					}
+					var kids []*Node
+					for _, k := range toc.Kids {
+						if k.Name != "x-signature" {
+							kids = append(kids, k)
+						}
+					}
+					toc.Kids = kids
+					return "cert-all-blank-classic"
+				}
+			}
+		}
 		if e := pickEl("X509Certificate"); e != nil {
 			t := e.AllText()
 			switch r.Intn(4) {
